@@ -27,7 +27,7 @@ func VerifHarness_C04_decode() {
 	t := &Tree{}
 	err := t.Decode(o)
 	verifrt.Reach("c04-decoded")
-	verifrt.Known("C04-mode-longer-than-7", verifrt.MergeBool(func() bool { return verifModeLongerThan7(buf) }))
+	verifrt.Known("C04-mode-longer-than-7", verifModeLongerThan7(buf))
 	verifrt.Assert((err == nil) == wantOK, "c04-decode-accept-iff-git")
 	if err != nil || !wantOK {
 		return
@@ -44,21 +44,19 @@ func VerifHarness_C04_decode() {
 	}
 }
 
-// verifModeLongerThan7: some entry's mode field (digits up to the first
-// space) is longer than 7 bytes.
+// verifModeLongerThan7: the buffer contains a run of 8 octal digits (a mode
+// field longer than 7 bytes). Built as one term, no forks.
 func verifModeLongerThan7(buf []byte) bool {
-	run := 0
-	for _, c := range buf {
-		if c >= '0' && c <= '7' {
-			run++
-			if run > 7 {
-				return true
-			}
-		} else {
-			run = 0
+	r := false
+	for i := 0; i+8 <= len(buf); i++ {
+		all := true
+		for k := 0; k < 8; k++ {
+			c := buf[i+k]
+			all = verifrt.And(all, verifrt.And(c >= '0', c <= '7'))
 		}
+		r = verifrt.Or(r, all)
 	}
-	return false
+	return r
 }
 
 // ---------- H2/H3: the Validate gate vs git fsck --strict ----------
@@ -87,7 +85,8 @@ func verifAtomName() string {
 	return name
 }
 
-var verifModes = []filemode.FileMode{filemode.Regular, filemode.Executable, filemode.Symlink, filemode.Dir, filemode.Submodule, filemode.Deprecated, filemode.Empty}
+// the first MODES entries are used; index len(verifModes) is an arbitrary 32-bit mode
+var verifModes = []filemode.FileMode{filemode.Regular, filemode.Dir, filemode.Symlink, filemode.Submodule, filemode.Executable, filemode.Deprecated, filemode.Empty}
 
 func verifEntries() ([]TreeEntry, []verifgit.Entry) {
 	n := verifrt.Range(1, verifrt.Param("ENTRIES"))
@@ -99,13 +98,16 @@ func verifEntries() ([]TreeEntry, []verifgit.Entry) {
 			verifrt.Assume(name[k] != 0) // a name is a C string
 		}
 		var mode filemode.FileMode
-		mc := verifrt.Range(0, len(verifModes))
+		mc := verifrt.Range(0, verifrt.Param("MODES")-1)
 		if mc == len(verifModes) {
 			mode = filemode.FileMode(verifrt.NondetUint32())
 		} else {
 			mode = verifModes[mc]
 		}
-		null := verifrt.NondetBool()
+		null := false
+		if verifrt.Param("NULLS") == 1 {
+			null = verifrt.NondetBool()
+		}
 		var h plumbing.Hash
 		if !null {
 			b := make([]byte, 20)
